@@ -87,12 +87,15 @@ func scenarioC14(r *Run) {
 		n = 5
 	}
 	overlap := 1 + c.Pick(3, "overlap")
-	endMode := []string{"client-shutdown", "carrier-reset", "garbage-frame", "partition-keepalive", "none"}[c.Pick(5, "end-mode")]
+	endMode := []string{"client-shutdown", "carrier-reset", "garbage-frame", "partition-keepalive", "none", "carrier-timeout"}[c.Pick(6, "end-mode")]
 	if endMode == "garbage-frame" && (CarrierEncrypted(carrier) || cfg.ServerCert != "" || CarrierIsKCP(carrier) || CarrierIsDNS(carrier) || strings.HasPrefix(carrier, "ws")) {
 		// garbage can only be injected as stream bytes where the carrier is a cleartext byte stream
 		endMode = "carrier-reset"
 	}
-	if (endMode == "carrier-reset" || endMode == "partition-keepalive") && (CarrierIsKCP(carrier) || CarrierIsDNS(carrier)) {
+	if endMode == "carrier-timeout" && (strings.HasPrefix(carrier, "stdio") || strings.HasPrefix(carrier, "unix")) {
+		endMode = "carrier-reset" // only a network path makes the kernel give up with ETIMEDOUT
+	}
+	if (endMode == "carrier-reset" || endMode == "partition-keepalive" || endMode == "carrier-timeout") && (CarrierIsKCP(carrier) || CarrierIsDNS(carrier)) {
 		endMode = "partition-keepalive"
 	}
 	r.Net.DefaultCap = c.OneOf("sockbuf", 65536, 0, 4096)
@@ -218,6 +221,11 @@ func scenarioC14(r *Run) {
 		for _, cn := range ClientCarrierConns(w) {
 			r.Net.Reset(cn)
 			r.Count("fault_carrier_reset")
+		}
+	case "carrier-timeout":
+		for _, cn := range ClientCarrierConns(w) {
+			r.Net.TimeoutKill(cn)
+			r.Count("fault_carrier_timeout")
 		}
 	case "garbage-frame":
 		for _, ls := range r.Net.LinkStates() {
